@@ -23,6 +23,8 @@ type MixOpts struct {
 	Conflicts int      // pairs of conflicting sends (only one of each pair can succeed)
 	ValOps    bool     // include one validator operation (pause/unpause/edit-stake/stake/unstake) when possible
 	Replay    [][]byte // transactions already included in earlier blocks, resubmitted
+	// ResubmitForged: every forged-signature transaction generated so far is submitted again
+	ResubmitForged bool
 }
 
 // Mixer produces mempool contents for successive heights of one chain. It tracks which reserved
@@ -36,6 +38,7 @@ type Mixer struct {
 	unstaked map[int]bool
 	staked   map[int]bool // account index -> staked as a new validator
 	failKind int
+	Forged   [][]byte // every forged-signature transaction handed out so far
 }
 
 func (n *Network) NewMixer(rng *rand.Rand) *Mixer {
@@ -52,8 +55,11 @@ func (m *Mixer) Mix(o MixOpts) []MixTx {
 	if nSenders < 1 {
 		nSenders = 1
 	}
+	// all funded ordinary senders: ed25519 and BLS accounts, plus the secp256k1 and Ethereum-style
+	// accounts when the network has them (Options.SchemeAccounts): blocks mix the signature schemes
+	senders := append(append(append([]crypto.PrivateKeyI{}, n.AcctKeys[:nSenders]...), n.SecpKeys...), n.EthKeys...)
 	for i := 0; i < o.Sends; i++ {
-		from := n.AcctKeys[m.Rng.Intn(nSenders)]
+		from := senders[m.Rng.Intn(len(senders))]
 		fee := uint64(minFee + m.Rng.Intn(3)*1000)
 		m.fresh++
 		out = append(out, MixTx{"send", n.SendTx(from, n.FreshAddr(m.fresh), uint64(1+m.Rng.Intn(100000)), fee, o.Height, ""), true})
@@ -76,7 +82,11 @@ func (m *Mixer) Mix(o MixOpts) []MixTx {
 			}
 			out = append(out, MixTx{"fail:unauthorized", n.SendTxFrom(from, Addr(other), to, 5, minFee, o.Height), false})
 		case 3:
-			out = append(out, MixTx{"fail:badsig", CorruptSignature(n.SendTx(from, to, 5, minFee, o.Height, "")), false})
+			// a forged signature of any scheme; remembered, to be submitted again at later heights
+			from = senders[m.Rng.Intn(len(senders))]
+			forged := CorruptSignature(n.SendTx(from, to, 5, minFee+uint64(m.Rng.Intn(3))*1000, o.Height, ""))
+			m.Forged = append(m.Forged, forged)
+			out = append(out, MixTx{"fail:badsig", forged, false})
 		case 4:
 			out = append(out, MixTx{"fail:farheight", n.SendTx(from, to, 5, minFee, o.Height+10000, ""), false})
 		case 5:
@@ -125,6 +135,13 @@ func (m *Mixer) Mix(o MixOpts) []MixTx {
 				out = append(out, MixTx{"stake", n.StakeTx(k, k.PublicKey().Bytes(), Addr(k), 500_000_000+uint64(i), minFee, o.Height, false), true})
 				break
 			}
+		}
+	}
+	// forged-signature transactions every node has already rejected once come back (a peer gossips
+	// them again): their earlier rejection must not have made them acceptable
+	if o.ResubmitForged {
+		for _, tx := range m.Forged {
+			out = append(out, MixTx{"fail:badsig-resubmitted", tx, false})
 		}
 	}
 	for _, tx := range o.Replay {
